@@ -81,6 +81,17 @@ theorem C01_failed_poll_neutral {σ} (resps : List FetchResponse) (c : Int) (h :
   unfold processResponses
   simp [h]
 
+/-- a poll whose fetch fails (I/O, decode error) leaves fetch offsets, retry queue and marks as they were -/
+theorem C01_fetch_failure_neutral {σ} (env : Env σ) (w : WC σ) (hret : w.cons.retry = [])
+    (e : Err) (w' : W σ) (hf : fetchMessages env
+      (w.cons.fetchOffsets.map fun (x : TP × FetchState) =>
+        (⟨w.cons.topicName x.1.topicRef, x.1.partition, x.2.offset, x.2.maxBytes⟩ : FetchArg)) ⟨w.world, w.cons.client⟩ = (w', .err e)) :
+    (poll env w).2 = .err e ∧ (poll env w).1.cons.fetchOffsets = w.cons.fetchOffsets ∧
+    (poll env w).1.cons.consumed = w.cons.consumed ∧ (poll env w).1.cons.retry = w.cons.retry := by
+  unfold poll
+  simp only [M.bind_def, getCons, hret, liftClient, hf]
+  refine ⟨?_, ?_, ?_, ?_⟩ <;> simp
+
 /-- did this partition deliver messages? -/
 def hasMsgs (p : FetchPartition) : Bool :=
   match p.data with
